@@ -1155,7 +1155,7 @@ class TypeAnalyser(SyntheticTypeVisitor[Type], TypeAnalyzerPluginInterface):
                 'Bracketed expression "[...]" is not valid as a type', t, code=codes.VALID_TYPE
             )
             if len(t.items) == 1:
-                self.note('Did you mean "List[...]"?', t)
+                self.note('Did you mean "List[...]"?', t, code=codes.VALID_TYPE)
             return AnyType(TypeOfAny.from_error)
 
     def visit_callable_argument(self, t: CallableArgument) -> Type:
@@ -2007,7 +2007,11 @@ class TypeAnalyser(SyntheticTypeVisitor[Type], TypeAnalyzerPluginInterface):
         ):
             if analyzed.prefix.arg_types:
                 self.fail("Invalid location for Concatenate", t, code=codes.VALID_TYPE)
-                self.note("You can use Concatenate as the first argument to Callable", t)
+                self.note(
+                    "You can use Concatenate as the first argument to Callable",
+                    t,
+                    code=codes.VALID_TYPE,
+                )
                 analyzed = AnyType(TypeOfAny.from_error)
             else:
                 self.fail(
